@@ -54,7 +54,7 @@ def preempt_case(draw, tier):
     ram = draw(st.sampled_from([30, 8, 12.34, 64, 100, 2.3, 256]))
     nticks = draw(st.sampled_from([60, 40, 100]))
     params = {"scheduler_algo": "priority", "ticks_per_second": tps, "duration": (nticks + 0.5) / tps,
-              "num_pools": draw(st.sampled_from([1, 1, 2, 3])), "cpus_per_pool": draw(st.sampled_from([1, 2, 3, 4, 10, 20])),
+              "num_pools": draw(st.sampled_from([1, 1, 2, 3])), "cpus_per_pool": draw(st.sampled_from([1, 2, 3, 4, 10, 20, 2.5, 1.5, 3.5])),
               "ram_gb_per_pool": ram, "multi_operator_containers": True,
               "allow_memory_overcommit": draw(st.sampled_from([False, False, True])), "random_seed": 0,
               "interactive_prob": 0.3, "query_prob": 0.1, "batch_prob": 0.6}
